@@ -17,8 +17,10 @@ VerdictOK(o) == IF OpenLoss(o) THEN o.r = "err"
                 ELSE IF FileOps(o) THEN o.r = "ok"
                 ELSE IF Cancelled(o) THEN o.r = "verdict" /\ o.status = 2
                 ELSE o.r = "verdict" /\ o.status = 7 /\ o.code = o.want
-\* a cancelled program may be killed before it has written anything
-TableOK(o)  == o.fds = <<"0:null", "1:null", "2:null", "3:own">> \/ ((Cancelled(o) \/ FileOps(o) \/ OpenLoss(o)) /\ o.fds = <<>>)
+\* (a cancelled program is killed at an arbitrary point: before it has written anything, or part-way through
+\*  listing its descriptors -- what it did list must be the beginning of its own table)
+FullTable == <<"0:null", "1:null", "2:null", "3:own">>
+TableOK(o)  == o.fds = FullTable \/ (Cancelled(o) /\ IsPrefix(o.fds, FullTable)) \/ ((FileOps(o) \/ OpenLoss(o)) /\ o.fds = <<>>)
 EffectOK(o) == o.marker = o.expmarker \/ ((Cancelled(o) \/ OpenLoss(o)) /\ o.marker = "")
 \* no run receives another run's trap events: the handler of a traced run is only shown its own paths
 TrapsOK(o)  == o.foreign = 0 /\ (o.kind = "ptracet" => o.traps > 0)
